@@ -31,7 +31,20 @@ func c04Run(w *W) {
 		cctx, ccancel = context.WithTimeout(w.Ctx, time.Duration(1+simrt.Choose(30))*time.Millisecond)
 		w.Fault("deadline")
 	}
+	// in a third of the stopped runs the input is slow rather than finite: the
+	// feeder stalls after a few items, so that consumers (and the construct's
+	// own goroutines) are blocked waiting for input when the stop arrives
+	release := make(chan struct{})
+	if mode != 0 && simrt.Choose(3) == 0 && mode != 7 {
+		// (not in the abandon mode: an "abandoned" consumer that is itself
+		// parked on a stalled input is not abandoned, it is still reading)
+		pipeStall, pipeRelease = simrt.Choose(n+1), release
+	}
 	p := buildPipe(cctx, kind, n, workers, buf)
+	pipeStall, pipeRelease = -1, nil
+	if p.stalled {
+		w.Fault("stalled-input")
+	}
 	if mode == 7 && !(kind == pkSplit && workers >= 2) {
 		mode = 1 // only Split has several outputs
 	}
@@ -183,6 +196,7 @@ func c04Run(w *W) {
 	}
 	// release harness feeders so that the run's own tasks do not linger
 	ccancel()
+	hclose(release)
 }
 
 func init() {
